@@ -9,6 +9,7 @@
    No axioms are used. *)
 From Coq Require Import ZArith List Bool.
 From FT Require Import Model.CandGraph Proofs.CandGraphProofs.
+From FT Require Model.PyRt5 Gen.CandGraph_gen Proofs.CandGraphTie.
 Import ListNotations.
 Open Scope Z_scope.
 
@@ -124,6 +125,34 @@ Proof. exact seg_graph_iou. Qed.
 
 (* ---- examples (non-vacuity) --------------------------------------------------------- *)
 (* points at t = 0,1,3,4 at one place (finding F-18a): edges only 0->1 and 3->4 *)
+(* ---- the candidate-graph functions are, for all arguments, the code translated on every run from the current
+        candidate_graph/utils.py, iou.py and compute_graph.py (Gen/CandGraph_gen.v; translator
+        harness/translate_candgraph.py, fail closed; combinators Model/PyRt5.v).  scipy's KDTree is
+        uninterpreted; the only thing assumed of query_ball_tree is its specification: for trees built from ps
+        and qs it returns, for each p in order, the ascending indices of the q within the ball (an arbitrary
+        boolean relation [close r]).  [Ok]: the Python raises nothing on these inputs. ---- *)
+Theorem C18_points_graph_is_generated :
+  forall (Dist KDTree : Type) (scipy_KDTree : list (list Z) -> KDTree)
+         (kd_query_ball_tree : KDTree -> KDTree -> Dist -> list (list Z))
+         (close : Dist -> list Z -> list Z -> bool),
+  (forall ps qs r, kd_query_ball_tree (scipy_KDTree ps) (scipy_KDTree qs) r =
+                   map (fun p => FT.Proofs.CandGraphTie.ball_indices Dist close r p qs) ps) ->
+  forall pts r sc,
+  FT.Gen.CandGraph_gen.gen_compute_graph_from_points_list Dist KDTree scipy_KDTree kd_query_ball_tree pts r sc =
+  match nodes_from_points_list sc pts with
+  | Some (g, d) => FT.Model.PyRt5.Ok (FT.Proofs.CandGraphTie.add_edges (FT.Proofs.CandGraphTie.cg_of g)
+                      (add_cand_edges (FT.Proofs.CandGraphTie.near_of Dist close r g) g d))
+  | None => FT.Model.PyRt5.Raise FT.Model.PyRt5.AssertionError
+  end.
+Proof. exact FT.Proofs.CandGraphTie.gen_compute_graph_from_points_list_eq. Qed.
+
+Theorem C18_add_iou_is_generated : forall g fs od,
+  FT.Gen.CandGraph_gen.gen_add_iou g fs od =
+  FT.Model.PyRt5.Ok (tt, FT.Proofs.CandGraphTie.add_ious g
+     (add_iou (FT.Model.PyRt5.cg_edges g) fs
+        match od with Some d => d | None => compute_nfd (FT.Model.PyRt5.cg_nodes g) end)).
+Proof. exact FT.Proofs.CandGraphTie.gen_add_iou_eq. Qed.
+
 Example C18_gap_example :
   compute_graph_from_points_list 25 None [[0;0;0]; [1;0;0]; [3;0;0]; [4;0;0]] =
   Some ([ {| n_id := 0; n_time := 0; n_pos := [0;0]; n_area := 0 |};
@@ -168,3 +197,5 @@ Print Assumptions C18_nodes_seg.
 Print Assumptions C18_iou_frames.
 Print Assumptions C18_iou_entries.
 Print Assumptions C18_iou.
+Print Assumptions C18_points_graph_is_generated.
+Print Assumptions C18_add_iou_is_generated.
